@@ -12,6 +12,7 @@
 package main
 
 import (
+	"sync/atomic"
 	"fmt"
 	"regexp"
 	"strings"
@@ -150,6 +151,8 @@ func substSyms(body string, from, to []string) string {
 func hasQuant(s string) bool { return strings.Contains(s, "(forall ") || strings.Contains(s, "(exists ") }
 
 // qfQuery builds the quantifier-free strengthening of obligation o, or "" if it does not apply.
+var sknCounter int64
+
 func (c *Ctx) qfQuery(o Obl) string { return c.qfQueryK(o, 0) }
 
 // qfQueryK: as qfQuery; with consts > 0 every hypothesis forall over one 64-bit index is additionally instantiated at
@@ -198,8 +201,8 @@ func (c *Ctx) qfQueryK(o Obl, consts int) string {
 			f := byFull[full]
 			var sks []string
 			for i := range f.syms {
-				c.skn++
-				sk := fmt.Sprintf("sk_%d_%d", len(c.decls), c.skn)
+				skn := atomic.AddInt64(&sknCounter, 1)
+				sk := fmt.Sprintf("sk_%d_%d", len(c.decls), skn)
 				skDecls = append(skDecls, fmt.Sprintf("(declare-const %s %s)", sk, f.sorts[i]))
 				sks = append(sks, sk)
 			}
